@@ -88,6 +88,40 @@ def _job_interception():
         "interrupt": [i_out, sorted(i_seen), ci.fault_fired],
     }
 
+    # statement-level fault points: the tracer sees the library's lines (and only those), counts
+    # the same number cold (first call: JIT compilation runs library code, untraced) and warm,
+    # and an armed tracer raises where it was told to, leaving tracing switched off afterwards
+    import sys
+
+    from groupby_lib.groupby.core import GroupBy
+
+    def traced_sum(mode, fault=None):
+        c = executor.SimContext(sched=Choices(replay=[]), cpu_count=4, fault=fault)
+        tr = None if fault else executor.LineTracer(None, mode=mode)
+        kk = np.array([3, 1, 3, 2, 1, 1], dtype=np.int32)  # a signature nothing above has compiled
+        with executor.use_context(c):
+            try:
+                if tr is None:
+                    out = GroupBy(kk).cumsum(np.arange(6, dtype=np.float32)).tolist()
+                else:
+                    with tr:
+                        out = GroupBy(kk).cumsum(np.arange(6, dtype=np.float32)).tolist()
+            except BaseException as e:  # noqa: BLE001
+                out = type(e).__name__
+        return out, (tr.count if tr else None), c
+
+    cold = traced_sum(0)
+    warm = traced_sum(0)
+    mut = traced_sum(1)
+    at = warm[1] // 2
+    f1 = traced_sum(0, {"kind": "stmt_fail", "k": 0, "at": at, "mode": 0})
+    f2 = traced_sum(0, {"kind": "stmt_interrupt", "k": 0, "at": at, "mode": 0})
+    model["stmt"] = {
+        "lines_cold": cold[1], "lines_warm": warm[1], "lines_mutator_functions": mut[1], "result": warm[0],
+        "fail": [f1[0], f1[2].fault_fired, f1[2].fault_where], "interrupt": [f2[0], f2[2].fault_fired, f2[2].fault_where],
+        "trace_off_afterwards": sys.gettrace() is None,
+    }
+
     return {
         "model": model,
         "sim_pools": ctx.n_pools,
@@ -123,6 +157,12 @@ def selfcheck(seed, workers):
         and info["model"]["spawn_fault"][0] == "InjectedSpawnFailure"
         and info["model"]["spawn_fault"][2] == "spawn_fail"
         and info["model"]["interrupt"] == ["InjectedInterrupt", [0, 1, 2, 3, 4], "consumer_interrupt"]
+        and info["model"]["stmt"]["lines_cold"] == info["model"]["stmt"]["lines_warm"] > 20
+        and 0 < info["model"]["stmt"]["lines_mutator_functions"] < info["model"]["stmt"]["lines_warm"]
+        and info["model"]["stmt"]["fail"][:2] == ["InjectedFault", "stmt_fail"]
+        and info["model"]["stmt"]["interrupt"][:2] == ["InjectedInterrupt", "stmt_interrupt"]
+        and info["model"]["stmt"]["fail"][2] == info["model"]["stmt"]["interrupt"][2]
+        and info["model"]["stmt"]["trace_off_afterwards"]
     )
     if not ok:
         print("HARNESS-ERROR: seam interception self-check failed")
